@@ -97,6 +97,9 @@ Section Ok.
       | ECall _ _ args =>
           (fix go (l : list (expr Q)) : bool :=
              match l with [] => true | x :: r => expr_ok x && go r end) args
+      | ETuple items =>            (* the members of a value tuple are value positions *)
+          (fix go (l : list (expr Q)) : bool :=
+             match l with [] => true | x :: r => expr_ok x && go r end) items
       | _ => true
       end.
 
